@@ -12,7 +12,10 @@ Loops == {"while", "for-growing-array", "for-range-huge", "recursion", "mutual-r
           \* built-in's callback or a constructor (initializer)
           "map-callback-recursion", "optional-map-recursion", "forEachKey-recursion", "constructor-recursion",
           "filter-callback-recursion"}
-Bodies == {"empty", "arith", "concat", "append", "dict-insert", "call", "resource", "log", "emit", "optional", "cast", "ref"}
+Bodies == {"empty", "arith", "concat", "append", "dict-insert", "call", "resource", "log", "emit", "optional", "cast", "ref",
+           \* invocation paths with their own depth bookkeeping: optional chaining on a nil receiver (the call is
+           \* skipped), on a present receiver, a bound function value, a call skipped by short-circuiting
+           "optchain-nil", "optchain-some", "bound-call", "skipped-call"}
 Limits == {"computation-small", "computation-large", "memory", "depth", "computation+memory"}
 \* constructs that carry their own work and take no separate body
 NoBody == {"string-doubling", "array-doubling", "dict-growing", "nested-value", "for-range-huge"}
@@ -23,7 +26,7 @@ Recursive == {"recursion", "mutual-recursion", "closure-recursion", "method-recu
 Shapes == {[loop |-> l, body |-> b, limit |-> m] : l \in Loops, b \in Bodies, m \in Limits}
 Valid(s) == /\ (s.loop \in NoBody => s.body = "empty")
             /\ (s.limit = "depth" => s.loop \in Recursive \ {"condition-recursion"})
-            /\ (s.loop \in {"filter-callback", "condition-recursion", "filter-callback-recursion"} => s.body \in {"empty", "arith", "optional", "cast"})   \* view context: pure bodies only                    \* only recursion reaches the depth limit
+            /\ (s.loop \in {"filter-callback", "condition-recursion", "filter-callback-recursion"} => s.body \in {"empty", "arith", "optional", "cast", "optchain-nil"})   \* view context: pure bodies only                    \* only recursion reaches the depth limit
             /\ (s.limit = "memory" => (s.loop \in NoBody \/ s.body \in {"concat", "append", "dict-insert", "resource", "call", "optional"} \/ s.loop \in Recursive))
 \* every shape runs with a finite computation limit and a finite call-depth limit (both always
 \* configured); the named limit is the one expected to trip first, but Metering.tla allows any of
@@ -35,7 +38,7 @@ Expect(s) == LET base == CASE s.limit = "depth" -> {"depth"}
              IN IF s.loop \in Recursive THEN base \cup {"depth"} ELSE base
 All == {s \in Shapes : Valid(s)}
 \* quick tier: every construct with every limit, a covering choice of bodies
-QuickBodies == {"empty", "append", "call", "resource", "cast"}
+QuickBodies == {"empty", "append", "call", "resource", "cast", "optchain-nil", "bound-call"}
 Quick == {s \in All : s.body \in QuickBodies /\ (s.limit \in {"computation-small", "memory", "depth"} \/ s.body = "empty")}
 ASSUME PrintT(ToJson([shapes |-> {s @@ [expect |-> Expect(s)] : s \in All},
                        quick  |-> {s @@ [expect |-> Expect(s)] : s \in Quick}]))
